@@ -31,7 +31,11 @@ class Walk:
         return [p.get(c) for c in range(len(self.spec['sel']))]
 
     def fold_auto(self, b, g, p):
-        """Fold automatically taken choices into p. Returns False when a choice was auto-taken without option."""
+        """Fold automatically taken choices into p. Returns False when a choice was auto-taken without option.
+        The library's record (get_taken_single_selection_choices) is used first; because that record is reset by
+        every resolve pass (e.g. constrain_choices followed by initialize_choices), choices that have vanished
+        from the graph while their originating node is still there are additionally inferred from the
+        origin -> option edge."""
         ok = True
         for cn, on in g.get_taken_single_selection_choices():
             ci = b.cidx.get(cn)
@@ -46,6 +50,17 @@ class Walk:
                     p[ci] = opts.index(ni)
                 else:
                     self.dis('offered-undeclared', p, {'choice': ci, 'auto-taken': str(on)})
+        gn = g.graph
+        for ci, c in enumerate(self.spec['sel']):
+            if ci in p or b.cn[ci] in gn.nodes:
+                continue
+            origin = b.nodes[c['o']]
+            if origin not in gn.nodes:
+                continue
+            wired = [k for k, o in enumerate(c['opts']) if b.nodes[o] in gn.nodes and gn.has_edge(origin, b.nodes[o])
+                     and [c['o'], o] not in self.spec['derives']]
+            if len(wired) == 1:
+                p[ci] = wired[0]
         return ok
 
     def run(self):
